@@ -30,6 +30,15 @@ def run(ctx):
                        "seeded larger ones; non-trivial = total size >= 2; distinct by content")
     tlc_mc(ctx, SD, "MergeA", "mc_merge_run.cfg", workers=8, timeout=3000,
            cfg_text="CONSTANTS MaxK = 3\n MaxLen = %d\n Keys = {1,2}\nSPECIFICATION Spec\nINVARIANTS OutSorted SmallestTaken AdvanceExact StableOrder\nCHECK_DEADLOCK FALSE\n" % (2 if quick else 3))
+    # PMergeI: parallel_multiway_merge_base (filter, clamp, split, per-thread merge length, input advance) on every small input
+    PMI = ("CONSTANTS MaxK = %d\n MaxLen = %d\n Keys = {1, 2}\n MaxT = %d\n Variant = \"%s\"\nSPECIFICATION Spec\n"
+           "INVARIANTS ChunksWellFormed LengthsSane WritesPartition ValuesRight AdvanceExact\nCHECK_DEADLOCK FALSE\n")
+    for (mk, ml, mt) in ([(2, 3, 3)] if quick else [(2, 3, 4), (3, 2, 3), (2, 4, 3)]):
+        tlc_mc(ctx, SD, "PMergeI", "mc_pmerge_run.cfg", workers=NCPU, coverage=False, timeout=6000, xmx="12g", cfg_text=PMI % (mk, ml, mt, "fixed"))
+    r = tlc_mc(ctx, SD, "PMergeI", "mc_pmerge_neg.cfg", workers=NCPU, coverage=False, timeout=3000, expect_ok=False, cfg_text=PMI % (2, 2, 3, "no_position_check"))
+    if r["ok"] or " is violated" not in r["out"]:
+        raise InternalError("negative self-test: PMergeI without the position check (original code) is not refuted")
+    ctx.cov["negative_self_tests"] = 1
     lines = []
     S = sorted_seqs((1, 2), 3)
     for k in (1, 2, 3):
@@ -78,7 +87,8 @@ def run(ctx):
         return ("pmerge/%s/%s/%s" % ("stable" if e.get("stable") else "unstable", "sampling" if e.get("mwmsa") == 0 else "exact", "sync" if what.startswith("races") else "result"),
                 "parallel multiway merge (k=%d, L=%s, threads=%s, %s splitting, %s): wrong %s" %
                 (len(e.get("seqs", [])), e.get("len"), e.get("threads"), "sampling" if e.get("mwmsa") == 0 else "exact", "stable" if e.get("stable") else "unstable", what))
-    validate_traces(ctx, SD, "Trace_Merge", "Trace_Merge.cfg", tr, classify, shards=NCPU, max_rejects=20)
+    # implementation level first (writer of every position as PMergeI predicts); what it rejects but Trace_Merge accepts is DRIFT
+    validate_traces(ctx, SD, "Trace_PMergeI", "Trace_PMergeI.cfg", tr, classify, shards=NCPU, max_rejects=20, property_level=(SD, "Trace_Merge", "Trace_Merge.cfg"))
     ctx.assumptions += ["input sequences are sorted; L <= total size",
                         "schedules: the threads only fork and join, so the shim's random / run-first schedules vary completion order; write-once and the "
                         "happens-before check are evaluated on instrumented element accesses; TSan with real threads monitors un-instrumented accesses",
